@@ -1290,6 +1290,12 @@ PREEMPT_PAIRS = [
     ("rbac", [[C("enforce", "alice", "data1", "read")], [C("enforce", "alice", "data9", "read")]]),
     ("pat", [[C("enforce", "/book/77", "data1", "read")], [C("enforce", "/pen/1", "data2", "write")]]),
     ("rbac", [[C("batch_enforce", [["alice", "data1", "read"], ["bob", "data2", "write"]])], [C("enforce_ex", "bob", "data1", "read")]]),
+    # a query that walks the stored rules of a role, against readers of exactly those rules (a reading call must not
+    # even temporarily rewrite what is stored)
+    ("rbac", [[C("get_implicit_users_for_resource", "data2")], [C("has_policy", "admin", "data2", "write")]]),
+    ("rbac", [[C("get_implicit_users_for_resource", "data1")], [C("enforce", "bob", "data1", "write")]]),
+    ("rbac", [[C("get_implicit_users_for_resource", "data2")], [C("get_policy")]]),
+    ("dom", [[C("get_implicit_users_for_resource_by_domain", "data1", "d1")], [C("enforce", "alice", "d1", "data1", "read")]]),
     # a reader and a writer: the writer must wait for the reader's section, whatever the preemption point
     ("pat", [[C("enforce", "/book/77", "data1", "read")], [C("add_grouping_policy", "/pen/:id", "book_group")]]),
     ("dompat", [[C("get_users_for_role_in_domain", "admin", "d1")], [C("delete_roles_for_user_in_domain", "alice", "admin", "*")]]),
@@ -1323,17 +1329,21 @@ def preemption_stratum(chk, judge, tabs, lines, deadline, stats, max_k):
                 d["cut_by_budget"] += 1
                 break
     if not lines:
-        # the listed finding needs source-line granularity: replay its pair at that granularity on every run
-        kind, progs = LISTED_PAIR
-        seq = SeqOutcomes(kind, progs)
+        # some races need source-line granularity (no casbin function is called between the two conflicting accesses):
+        # these pairs are run at that granularity on every run
         n = 0
-        for a, k, res in sched.one_preemption_schedules(
-                lambda ch: SyncedRun(kind, progs, yields=False, preempt="line").run(ch), n_threads=2, max_k=1500):
-            judge.add(kind, progs, res, seq, "preempt")
-            n += 1
-            if res.status == "hang" or time.time() > deadline + 20:
-                break
-        d["listed_pair_line_granularity_runs"] = n
+        for kind, progs in [LISTED_PAIR] + [pp for pp in PREEMPT_PAIRS if pp[1][0][0]["m"].startswith("get_implicit_users_for_resource")]:
+            if not all(usable(tabs, "rbac", c["m"]) for p in progs for c in p):
+                continue
+            seq = SeqOutcomes(kind, progs)
+            t_pair = time.time() + 12
+            for a, k, res in sched.one_preemption_schedules(
+                    lambda ch, kind=kind, progs=progs: SyncedRun(kind, progs, yields=False, preempt="line").run(ch), n_threads=2, max_k=1500):
+                judge.add(kind, progs, res, seq, "preempt")
+                n += 1
+                if res.status == "hang" or time.time() > t_pair:
+                    break
+        d["line_granularity_runs_in_quick"] = n
 
 
 # ----------------------------------------------------------------------------- replay
